@@ -71,7 +71,7 @@ impl Monitor for C01 {
 		"C01"
 	}
 	fn rule(&self) -> String {
-		"cases = repository fixtures + deterministic sweep (every (major,minor) 0.1..3.16 with a base shape; every distinct layout x shape matrix of port sets/ICs/presence patterns/rollbacks/items/gecko/end/metadata) + VERIF_SEED-driven random well-formed specs; every payload field carries random bits (1/8 special patterns: NaN payloads, inf, sign bit, all ones). A case is non-trivial when the reference model re-parses the generated file to the generator's ground truth; distinct = distinct coverage classes (layout, regime x port mask, regime x absence x rollback x items x frame-count class, gecko x ends x metadata). Oracle: write(read(x)) == x byte for byte.".into()
+		"cases = repository fixtures + deterministic sweep (every (major,minor) 0.1..3.16 with a base shape; every distinct layout x shape matrix of port sets/ICs/presence patterns/rollbacks/items/gecko/end/metadata) + VERIF_SEED-driven random well-formed specs; every payload field carries random bits (1/8 special patterns: NaN payloads, inf, sign bit, all ones). A case is non-trivial when the reference model re-parses the generated file to the generator's ground truth; distinct = distinct coverage classes (layout, regime x port mask, regime x absence x rollback x items x frame-count class, gecko x ends x metadata). Every 4th case is preceded by a (failing) read of a truncated copy on the same thread. Oracle: write(read(x)) == x byte for byte, into a plain buffer and into a sink that accepts only 1/3/7/100/4096 bytes per call; a sink that fails after k bytes must make the write return Err.".into()
 	}
 	fn assumptions(&self) -> Vec<String> {
 		vec!["well-formedness is defined by the harness's hand-transcribed spec tables (spec.rs), pinned against the payload tables of the repository's real fixtures".into(), "frame field contents are sampled, not enumerated".into()]
@@ -91,6 +91,16 @@ impl Monitor for C01 {
 		out.evals = 1;
 		out.count("bytes_in", bytes.len() as u64);
 		out.count("frames", truth.frames.len() as u64);
+		// history: every 4th case first reads a truncated copy of the file on the same thread (it
+		// fails); nothing of that failed parse may leak into the read that follows
+		if idx % 4 == 1 && bytes.len() > 64 {
+			let mut r0 = crate::rng::Rng::derive(ctx.seed, 0xC010 ^ idx as u64);
+			let cut = if idx % 8 == 1 { truth.events.get(r0.below(truth.events.len().max(1))).map_or(bytes.len() / 2, |e| e.1 + 1 + r0.below(e.2.max(1))) } else { r0.range(16, bytes.len() - 1) };
+			// through the instrumented source, so that an EOF-polling loop cannot block this check
+			if common::slp_read_src(crate::iofault::Src::of(&bytes[..cut.min(bytes.len() - 1)]), false, false).is_err() {
+				out.count("truncated_copy_rejected_before_real_read", 1);
+			}
+		}
 		let game = match common::slp_read(&bytes, false, false) {
 			Ok(g) => g,
 			Err(f) => {
@@ -111,6 +121,31 @@ impl Monitor for C01 {
 			let place = if i >= 11 && i < 15 { "declared raw length".to_string() } else { common::locate(&truth, i) };
 			let place_class = if i >= 11 && i < 15 { "declared-raw-length".to_string() } else { truth.events.iter().find(|(_, at, len)| i >= *at && i <= at + len).map_or("outside-events".into(), |(c, _, _)| format!("event-{:#04x}", c)) };
 			out.violate(format!("roundtrip-differs;{}", place_class), format!("{}: {} [{}]", desc, common::first_diff(&bytes, &written), place), Some(&bytes));
+		}
+		// write side of the environment: a sink that accepts only a few bytes per call must still
+		// receive the identical file, and a sink that fails must make the write fail
+		if bytes.len() < 300_000 {
+			let k = [1usize, 3, 7, 100, 4096][idx % 5];
+			let (r, sink) = common::slp_write_sink(&game, crate::iofault::Sink::short(k));
+			out.evals += 1;
+			match r {
+				Ok(()) if sink.buf == bytes => out.count("short_write_sink_identical", 1),
+				Ok(()) => out.violate("short-write-sink-differs", format!("{}: written through a sink accepting {} bytes per call the output differs: {}", desc, k, common::first_diff(&bytes, &sink.buf)), Some(&bytes)),
+				Err(f) => out.violate(format!("short-write-sink-failed;{}", f.sig()), format!("{}: {}", desc, f.text()), Some(&bytes)),
+			}
+			let mut rng = crate::rng::Rng::derive(ctx.seed, 0xC01F ^ idx as u64);
+			let cut = match idx % 4 {
+				0 => bytes.len() - 1,
+				1 => rng.below(bytes.len()),
+				2 => bytes.len().saturating_sub(rng.range(1, 9000)),
+				_ => rng.below(16),
+			};
+			let (r, sink) = common::slp_write_sink(&game, crate::iofault::Sink::failing(cut));
+			out.evals += 1;
+			match r {
+				Err(_) => out.count("failing_sink_surfaced_as_err", 1),
+				Ok(()) => out.violate("write-error-swallowed", format!("{}: the sink failed after {} of {} bytes (failed={}) but slippi::write returned Ok", desc, cut, bytes.len(), sink.failed), Some(&bytes)),
+			}
 		}
 		if idx % 50 == 0 {
 			out.sample = Some(json!({"case": idx, "input": desc, "bytes": bytes.len(), "rows": truth.frames.len(), "observed": if written == bytes { "write(read(x)) == x" } else { "DIFFERS" }}));
